@@ -13,8 +13,18 @@ def plan(which, rng, thorough=True):
             runs.append(["timed", str(fam), "60", "1"])
             if thorough:
                 runs += [["sigdata", str(fam), "1500"], ["timed", str(fam), "150", "1"]]
+            # a storm of handled signals (every 0.7 ms) during connect / accept / blocking send and receive through 4 KiB socket
+            # buffers, and during datagram send_to / receive_from: right data, never an interrupted-call error
+            runs.append(["tcp", str(rng.randrange(1, 10**6)), str(fam), "400000" if thorough else "150000", "1", "0"])
+            runs.append(["udp", str(rng.randrange(1, 10**6)), str(fam), "1"])
+    elif which == "C09" and not thorough:
+        # quick tier: one short pass over the real kernel (about 3 s): stream under a signal storm, datagrams one at a time
+        # and queued (two senders, empty datagrams, NULL address result, pending socket error = POLLERR alone), vanished peer
+        runs += [["tcp", str(rng.randrange(1, 10**6)), "4", "150000", "1", "0"], ["tcp", str(rng.randrange(1, 10**6)), "4", "150000", "0", "3"],
+                 ["udp", str(rng.randrange(1, 10**6)), "4", "1"], ["udpq", str(rng.randrange(1, 10**6)), "4"], ["gone", "4"]]
     elif which == "C09":
         for fam in (4, 6):
+            runs.append(["udpq", str(rng.randrange(1, 10**6)), str(fam)])
             for mode in range(4):
                 for storm in (1, 0):
                     size = rng.choice([150000, 400000, 1200000 if (mode == 3 and fam == 4) else 600000])
